@@ -552,6 +552,47 @@ def geo_text(K, only=None):
                     if only is None or t == only) + " mmap=" + ",".join(str(n) for _, n in K.mmaps)
 
 
+def run_real(case):
+    """thorough-tier validation only: the same API calls against the real kernel; returns the outcomes"""
+    from ebpfcat.bpf import ProgType
+    decl = case["decl"]
+    e = build(decl)(ProgType.XDP, "GPL")
+    res = []
+
+    for f in [lambda: e.load() and "ok" or "ok"] + [(lambda c=c: do_call(None, e, decl, c)) for c in case["calls"]]:
+        try:
+            res.append(f())
+        except OSError as ex:
+            if ex.errno in (errno.EPERM, errno.ENOSYS, errno.EACCES):
+                raise
+            res.append(exc_name(ex))
+        except Exception as ex:
+            res.append(exc_name(ex))
+    with contextlib.suppress(Exception):
+        e.close()
+    return res
+
+
+def kernel_validation(ctx, cases):
+    done = same = 0
+    for c in cases:
+        if c["decl"]["kind"] not in ("dict", "hashvars") or c["decl"].get("lru") or len(c["decl"].get("vars", [])) > 255:
+            continue
+        c = {**c, "calls": [list(x) for x in c["calls"]]}
+        try:
+            real = run_real(c)
+        except OSError:
+            return
+        _, _, _, emu = run_impl(c)
+        done += 1
+        if real == emu:
+            same += 1
+        else:
+            ctx.notes.append(f"kernel validation: emulated and real kernel differ: {c} emu={emu} real={real}"[:1200])
+            ctx.broken.append("emulated kernel disagrees with the real kernel")
+    ctx.extra["kernel_validation"] = {"sequences_on_real_kernel": done, "agree_with_emulation": same}
+
+
 def run_impl(case):
     """drive the real entry points; returns (kernel, geometry text, [per call: issued commands], [per call: outcome])"""
     from ebpfcat.bpf import ProgType
@@ -644,7 +685,8 @@ def do_call(K, e, decl, c):
         del e.tbl[fill(Key(), c[1])]
         return "ok"
     if op == "iter":
-        c[1:] = [len(K.maps[e.tbl.fd].entries)]     # environment: entries present when the iteration starts
+        if K is not None:
+            c[1:] = [len(K.maps[e.tbl.fd].entries)]     # environment: entries present when the iteration starts
         return "keys " + str(len([k for k in e.tbl]))
     raise AssertionError(op)
 
@@ -728,6 +770,8 @@ def run(ctx):
     if model is not None:
         for c, i, m in zip(cases, impl, model):
             ctx.agree("commands, buffer lengths and geometry of " + c["decl"]["kind"], c, i, m)
+    if not ctx.quick:
+        kernel_validation(ctx, cases[:400])
 
 
 def replay(ctx, case):
